@@ -204,10 +204,71 @@ def abortFlow : Nat → FUid → List Score → Bool → M Unit
     pushEvent (← failedEvent f scores)
     restartActivated f scores deactivate
 
-/-- `_log_action_or_intents` — only for flows without the four `@meta` tags it looks at -/
-def logActionOrIntents (f : FUid) : M Unit := do
+/-- `_get_flow_state_hierarchy(state, uid)` -/
+def flowHierarchy : Nat → FUid → M (List FUid)
+  | 0, _ => throw .outOfFuel
+  | fuel + 1, f => do
+    match ← getInstX? f with
+    | none => return []
+    | some x =>
+      match x.parentUid with
+      | none => return [f]
+      | some p => return (← flowHierarchy fuel p) ++ [f]
+
+def metaTag (cfg : FlowCfg) (t : String) : Option MetaVal := (cfg.metaTags.find? (·.1 = t)).map (·.2)
+
+/-- `_log_action_or_intents(state, flow_state, matching_scores)` -/
+def logActionOrIntents (fuel : Nat) (f : FUid) (scores : List Score) : M Unit := do
   let cfg ← cfgOfInst f
-  if !cfg.metaTags.isEmpty then unsupported "@meta(user_intent/bot_intent/user_action/bot_action) logging"
+  let (evType, param) := match metaTag cfg "user_intent", metaTag cfg "bot_intent", metaTag cfg "user_action", metaTag cfg "bot_action" with
+    | some v, _, _, _ => (some "UserIntentLog", some v)
+    | none, some v, _, _ => (some "BotIntentLog", some v)
+    | none, none, some v, _ => (some "UserActionLog", some v)
+    | none, none, none, some v => (some "BotActionLog", some v)
+    | none, none, none, none => (none, none)
+  let some evType := evType | return
+  let x ← getInstX f
+  -- `if isinstance(meta_tag_parameters, str): meta_tag_parameters = eval_expression('"…"', ctx)`
+  let nameFromTag : Option Val ← match param with
+    | some (.str e) => do pure (some (← evalIn f e))
+    | some .other => unsupported "@meta tag value that is neither bool nor str"
+    | _ => pure none
+  let parameter := (lookupArg "$0" x.arguments).getD .none
+  if evType = "UserIntentLog" || evType = "BotIntentLog" then
+    let name : Val := match nameFromTag with
+      | some (.str s) => .str s
+      | _ =>
+        if x.flowId.startsWith "_dynamic_" && x.flowId.length ≥ 18 then .str (String.ofList (x.flowId.toList.drop 18)) else .str x.flowId
+    let parameter := match nameFromTag with | some (.str _) => Val.none | _ => parameter
+    pushEvent (mkInternal evType [("flow_id", name), ("parameter", parameter)] scores)
+  else
+    -- find the next intent up the hierarchy
+    let hierarchy ← flowHierarchy fuel f
+    let mut intent : Val := .none
+    for u in hierarchy.reverse do
+      let ux ← getInstX u
+      let ucfg ← getCfg ux.flowId
+      let cand : Option MetaVal ← match metaTag ucfg "bot_intent", metaTag ucfg "user_intent" with
+        | some v, _ => pure (some v)
+        | none, some v => pure (some v)
+        | none, none =>
+          if (lookupArg "_bot_intent" ux.context).isSome || (lookupArg "_user_intent" ux.context).isSome then
+            unsupported "intent taken from a `_bot_intent` / `_user_intent` context variable"
+          else pure none
+      match cand with
+      | some (.str e) =>
+        intent ← evalIn u e
+        break
+      | some (.bool _) =>
+        intent := .str ucfg.id
+        break
+      | some .other => unsupported "@meta intent value that is neither bool nor str"
+      | none => pure ()
+    let name : Val := match nameFromTag with
+      | some (.str s) => .str s
+      | _ => .str x.flowId
+    let parameter := match nameFromTag with | some (.str _) => Val.none | _ => parameter
+    pushEvent (mkInternal evType [("flow_id", name), ("parameter", parameter), ("intent_flow_id", intent)] scores)
 
 def finishFlow (fuel : Nat) (f : FUid) (scores : List Score) (deactivate : Bool) : M Unit := do
   if deactivate && (← isReferenceActivated f) then
@@ -252,7 +313,7 @@ def finishFlow (fuel : Nat) (f : FUid) (scores : List Score) (deactivate : Bool)
     | none => pure ()
   let o ← flowObjOf f
   pushEvent { ev := flowFinishedEvent o [], scores := scores }
-  logActionOrIntents f
+  logActionOrIntents fuel f scores
   restartActivated f scores deactivate
 
 /-! ### `slide` -/
